@@ -822,6 +822,12 @@ for (sig, th, v0, dt) in ((0.2, 0.04, 0.09, 0.02), (2.0, 0.01, 0.002, 0.02), (1.
     if z(v[:, 1].mean(), mean1, float(v[:, 1].std()) / n ** 0.5) > 6: bad.append(("cir one-step mean", sig, float(v[:, 1].mean()), mean1))
     h = ps.generate_heston(n, 6, init_state=(1.0, v0), kappa=kap, theta=th, sigma=sig, dt=dt, dtype=torch.float64)
     if z(h.variance[:, -1].mean(), mean, float(h.variance[:, -1].std()) / n ** 0.5) > 6: bad.append(("heston variance mean", sig, float(h.variance[:, -1].mean()), mean))
+# CIR at a small scale in the default dtype (float32): by scale covariance the law of (theta, v0, sigma) / (c, c, sqrt(c)) is the scaled law
+sc = 200.0
+v = ps.generate_cir(n, 6, init_state=(0.04 / sc,), kappa=1.5, theta=0.04 / sc, sigma=0.2 / sc ** 0.5, dt=0.02)
+t = 5 * 0.02; e = math.exp(-1.5 * t)
+var_s = ((0.04 / sc) * (0.2 ** 2 / sc) / 1.5 * (e - e * e) + (0.04 / sc) * (0.2 ** 2 / sc) / (2 * 1.5) * (1 - e) ** 2)
+if abs(float(v[:, -1].double().var()) / var_s - 1) > 0.05: bad.append(("cir variance at scale 1/200 (float32)", float(v[:, -1].double().var()), var_s))
 # Vasicek from a start away from theta
 r = ps.generate_vasicek(n, 11, init_state=(0.01,), kappa=2.0, theta=0.05, sigma=0.02, dt=0.05, dtype=torch.float64)
 e = math.exp(-2.0 * 0.5)
